@@ -1,6 +1,9 @@
 // C13 harness: the exported C functions against the equivalent Rust calls.
 //   P <script tokens>          physical script through Rust API, C ABI (default alloc), C ABI (custom alloc)
 //   M P=.. D=.. T=<threads> B=<out buffer: bound|n> E=multi|pool X=<custom alloc 0|1>
+//   K E=create|pool|multi|wpool A=<alloc callback 0|1> F=<free callback 0|1> T=<threads>
+//       contract violations at the C boundary (a lone alloc or free callback) and the consistent pairs as controls;
+//       the check runs every K request in a process of its own: an abort is then visible as a dead process
 use alloc_no_stdlib::SliceWrapper;
 use brotli::enc::backward_references::{BrotliEncoderParams, UnionHasher};
 use brotli::enc::threading::{Owned, SendAlloc};
@@ -44,6 +47,81 @@ fn run_p(t: &[&str]) -> String {
         after.2 - before.2,
         live
     )
+}
+
+fn run_k(t: &[&str]) -> String {
+    let entry = kv(t, "E=").unwrap_or("create");
+    let a = kv(t, "A=").unwrap_or("0") == "1";
+    let f = kv(t, "F=").unwrap_or("0") == "1";
+    let threads: usize = kv(t, "T=").unwrap_or("2").parse().unwrap();
+    let af: brotli_decompressor::ffi::interface::brotli_alloc_func = if a { Some(cabi::c_alloc) } else { None };
+    let ff: brotli_decompressor::ffi::interface::brotli_free_func = if f { Some(cabi::c_free) } else { None };
+    let data = gen_data("text", 3000, 77);
+    let before = cabi::ALLOCS.with(|x| *x.borrow());
+    let verdict: String = unsafe {
+        match entry {
+            "create" => {
+                let st = brotli::ffi::compressor::BrotliEncoderCreateInstance(af, ff, core::ptr::null_mut());
+                if st.is_null() {
+                    "null".to_string()
+                } else {
+                    // the instance must be usable and destroyable
+                    let mut out = vec![0u8; 8192];
+                    let mut avail_in = data.len();
+                    let mut next_in = data.as_ptr();
+                    let mut avail_out = out.len();
+                    let mut next_out = out.as_mut_ptr();
+                    let mut total = 0usize;
+                    let r = brotli::ffi::compressor::BrotliEncoderCompressStream(
+                        st,
+                        brotli::ffi::compressor::BrotliEncoderOperation::BROTLI_OPERATION_FINISH,
+                        &mut avail_in, &mut next_in, &mut avail_out, &mut next_out, &mut total,
+                    );
+                    let n = out.len() - avail_out;
+                    brotli::ffi::compressor::BrotliEncoderDestroyInstance(st);
+                    let ok = r != 0 && decode_all(&out[..n]).map(|x| x == data).unwrap_or(false);
+                    format!("inst:{}", if ok { "ok" } else { "bad" })
+                }
+            }
+            "pool" => {
+                let p = brotli::ffi::multicompress::BrotliEncoderCreateWorkPool(threads, af, ff, core::ptr::null_mut());
+                if p.is_null() {
+                    "null".to_string()
+                } else {
+                    brotli::ffi::multicompress::BrotliEncoderDestroyWorkPool(p);
+                    "pool:ok".to_string()
+                }
+            }
+            _ => {
+                let keys = [brotli::enc::encode::BrotliEncoderParameter::BROTLI_PARAM_QUALITY];
+                let vals = [5u32];
+                let cap = brotli::ffi::multicompress::BrotliEncoderMaxCompressedSizeMulti(data.len(), threads.max(1).min(16));
+                let mut out = vec![0u8; cap];
+                let mut size = cap;
+                let r = if entry == "multi" {
+                    brotli::ffi::multicompress::BrotliEncoderCompressMulti(
+                        1, keys.as_ptr(), vals.as_ptr(), data.len(), data.as_ptr(), &mut size, out.as_mut_ptr(), threads, af, ff,
+                        core::ptr::null_mut::<*mut c_void>(),
+                    )
+                } else {
+                    brotli::ffi::multicompress::BrotliEncoderCompressWorkPool(
+                        core::ptr::null_mut(), 1, keys.as_ptr(), vals.as_ptr(), data.len(), data.as_ptr(), &mut size, out.as_mut_ptr(), threads, af, ff,
+                        core::ptr::null_mut::<*mut c_void>(),
+                    )
+                };
+                if r == 0 {
+                    "ret:0".to_string()
+                } else if size <= cap && decode_all(&out[..size]).map(|x| x == data).unwrap_or(false) {
+                    "ret:ok".to_string()
+                } else {
+                    "ret:bad".to_string()
+                }
+            }
+        }
+    };
+    let after = cabi::ALLOCS.with(|x| *x.borrow());
+    let live = cabi::LEDGER.with(|l| l.borrow().len());
+    format!("K V={} ALLOC={} FREE={} BADFREE={} LIVE={}", verdict, after.0 - before.0, after.1 - before.1, after.2 - before.2, live)
 }
 
 fn run_m(t: &[&str]) -> String {
@@ -180,6 +258,7 @@ fn main() {
         let r = guarded(std::panic::AssertUnwindSafe(|| match t[0] {
             "P" => run_p(&t[1..]),
             "M" => run_m(&t[1..]),
+            "K" => run_k(&t[1..]),
             _ => "BADREQ".to_string(),
         }));
         match r {
